@@ -86,6 +86,7 @@ type vector struct {
 	V     *valgen.Value
 	Edge  bool
 	Probe bool      // neighbouring-elements vector: Read is exercised under every option set
+	Light bool      // few perturbations only
 	W     *valgen.W // nil when the harness encoder refuses (edge shapes)
 }
 
@@ -352,6 +353,8 @@ func main() {
 		p := schemagen.Generate(pr, pp, fmt.Sprintf("p%d", i))
 		// containers of struct-likes whose neighbouring elements set different optional members
 		schemagen.AddProbe(p)
+		// declared structs named like the synthesized <method>_args / <method>_result / <Svc><Method>Args
+		schemagen.AddNameCoincidence(p)
 		// a small service per file: its synthesized <fn>_args / <fn>_result structs are ordinary schemas
 		schemagen.AddServices(r.Fork(), p, schemagen.ServiceParams{MaxServices: 1, MaxFuncs: 2, MaxArgs: 3, MaxThrows: 1, Collide: false, TypeDepth: 2})
 		for _, sv := range p.Services() {
@@ -434,13 +437,17 @@ func main() {
 			if s.Synth {
 				st.SynthStructs++
 			}
-			for k := 0; k < nVal; k++ {
+			nv := nVal
+			if isFixture(s) && *tier != "thorough" {
+				nv = 1 // the fixed probe / name-coincidence families: one random value each keeps quick near its cost
+			}
+			for k := 0; k < nv; k++ {
 				g, edge := gw, false
 				if k == nVal-1 {
 					g, edge = ge, true
 				}
 				v := g.Struct(s, r.Range(0, 3))
-				vec := &vector{S: s, V: v, Edge: edge}
+				vec := &vector{S: s, V: v, Edge: edge, Light: isFixture(s) && *tier != "thorough"}
 				if w, err := valgen.ToWire(p, s, v); err == nil {
 					vec.W = w
 				}
@@ -482,7 +489,7 @@ func main() {
 		o := setOf(u)
 		pi := progIndex[p.Key]
 		for _, s := range allStructs(p) {
-			add(&pending{kind: "shape", prog: pi, unit: u, os: o, vec: &vector{S: s}}, "shape", u.Key, s.QName())
+			add(&pending{kind: "shape", prog: pi, unit: u, os: o, vec: &vector{S: s}}, "shape", u.Key, drvKey(u, s))
 		}
 		rr := rng.New(*seed ^ uint64(pi)*7919 ^ hashStr(o.Key))
 		for vi, vec := range vectors[p.Key] {
@@ -495,7 +502,7 @@ func main() {
 				st.SkippedEnum32++ // the Go type is int32: the value does not exist there
 				continue
 			}
-			add(&pending{kind: "write", prog: pi, unit: u, os: o, vec: vec}, "write", u.Key, s.QName(), vec.V.JSON())
+			add(&pending{kind: "write", prog: pi, unit: u, os: o, vec: vec}, "write", u.Key, drvKey(u, s), vec.V.JSON())
 			if vec.W == nil || (vi%o.Reads != 0 && !vec.Probe) {
 				continue
 			}
@@ -511,16 +518,16 @@ func main() {
 					init = "zero"
 				}
 				add(&pending{kind: "read", prog: pi, unit: u, os: o, vec: vec, rkind: kind, input: bs, zero: zero, src: src},
-					"read", u.Key, s.QName(), hex.EncodeToString(bs), init)
+					"read", u.Key, drvKey(u, s), hex.EncodeToString(bs), init)
 			}
 			w := vec.W
 			rd("valid", w, nil, false, vec.V)
 			rd("valid_zero_init", w, nil, true, vec.V)
-			if o.Key != "o0" || vec.Probe {
+			if o.Key != "o0" || vec.Probe || vec.Light {
 				if ins := valgen.AllInsertions(rr, s, w); len(ins) > 0 {
 					rd(valgen.PInsertUnknown, ins[rr.Intn(len(ins))], nil, false, vec.V)
 				}
-				if x := valgen.NestedUnknown(rr, p, s, w); x != nil && vec.Probe {
+				if x := valgen.NestedUnknown(rr, p, s, w); x != nil && (vec.Probe || vec.Light) {
 					rd(valgen.PNestedUnknown, x, nil, false, nil)
 				}
 				continue
@@ -589,7 +596,7 @@ func main() {
 			pre := "From Verif Require Import Base.Bytes Base.BE Wire.TType Wire.WVal Wire.Codec Wire.Schema Wire.Value Wire.Std Corr.C02.\n" +
 				"From Coq Require Import List NArith ZArith String.\nImport ListNotations.\nOpen Scope string_scope.\n" +
 				coqfmt.FastPreamble +
-				"Definition E : env := " + p.CoqWith(p.SynthStructs()) + ".\n" +
+				"Definition E : env := " + p.CoqWith(allStructs(p)[len(p.Structs()):]) + ".\n" +
 				"Definition mismatches := mismatches_from E N0.\n"
 			writers[pi] = casefile.New(dir, pre, perShard)
 		}
@@ -796,6 +803,11 @@ func lastLine(s string) string {
 	return firstLine(s)
 }
 
+// isFixture: a struct of the fixed families added by AddProbe / AddNameCoincidence (or synthesized for their services)
+func isFixture(s *schemagen.Struct) bool {
+	return strings.HasPrefix(s.Name, "Pr") || strings.HasPrefix(s.Name, "pr_")
+}
+
 func findStruct(p *schemagen.Program, qname string) *schemagen.Struct {
 	if s := p.Struct(qname); s != nil {
 		return s
@@ -808,8 +820,32 @@ func findStruct(p *schemagen.Program, qname string) *schemagen.Struct {
 	return nil
 }
 
+// allStructs: declared struct-likes, then the synthesized ones whose qualified name no declared
+// struct has (a declared `<m>_args` shadows the synthesized one in the env; the declared one is what
+// field types resolve to)
 func allStructs(p *schemagen.Program) []*schemagen.Struct {
-	return append(p.Structs(), p.SynthStructs()...)
+	out := p.Structs()
+	seen := map[string]bool{}
+	for _, s := range out {
+		seen[s.QName()] = true
+	}
+	for _, s := range p.SynthStructs() {
+		if !seen[s.QName()] {
+			seen[s.QName()] = true
+			out = append(out, s)
+		}
+	}
+	return out
+}
+
+// drvKey: the driver key of the generated type for struct s in unit u (disambiguated by thrift tags
+// when several generated types announce the same IDL name)
+func drvKey(u *gendrv.Unit, s *schemagen.Struct) string {
+	want := make([]string, len(s.Fields))
+	for i, f := range s.Fields {
+		want[i] = fmt.Sprintf("%s,%d", f.Name, f.ID)
+	}
+	return u.Pick(s.QName(), want)
 }
 
 func firstLine(s string) string {
